@@ -101,7 +101,7 @@ func readReply(r *bufio.Reader, raw *bytes.Buffer) ([]string, error) {
 }
 
 // readFlat reads n flat tokens (an array header counts as one token): used when the handler chain
-// itself wrote an incomplete reply (EXEC cut short, known finding D12), to stay in step.
+// itself wrote an incomplete reply (as EXEC did before the repair of D12), to stay in step.
 func readFlat(r *bufio.Reader, raw *bytes.Buffer, n int) ([]string, error) {
 	var toks []string
 	for len(toks) < n {
